@@ -25,8 +25,11 @@ NAMES = ['a', 'b', 'a.txt', 'a.png', 'b.txt', 'c', 'd.e.txt', 'sub', 'sub.d',
          'a[1]', 'x*y', 'q?.txt', '[ab]', 'a1',
          # decomposed and precomposed spellings of one name, upper-case
          # extensions
-         'e\u0301.txt', '\u00e9.txt', 'a.PNG', 'B.Txt']
-MAGIC_DIRS = ('a[1]', 'x*y', '[ab]')
+         'e\u0301.txt', '\u00e9.txt', 'a.PNG', 'B.Txt',
+         # legal names that look like references to environment variables
+         # (VERIF_X is defined while a run lasts) or to a home directory
+         'p$VERIF_X', '${VERIF_X}', '~']
+MAGIC_DIRS = ('a[1]', 'x*y', '[ab]', 'p$VERIF_X', '${VERIF_X}', '~')
 _counter = [0]
 
 
@@ -85,6 +88,7 @@ class Interp:
             scenario.get('run_seed', 0) & 0xffff, self.trace)
         import desper.model as dmodel
         self.dmodel = dmodel
+        os.environ['VERIF_X'] = 'sub'
         # the delimiter of composite keys is a class attribute of the maps
         # (a program may set another one once and for all)
         self.S = self.cfg.get('split', '/')
